@@ -339,6 +339,60 @@ CONTROLS += [
         sub("    def find_child(self, name: Union['XMLElement', str], ordered: bool = False) -> 'XMLElement':\n",
             "    def _validate(self, intelligent_choice):\n        if self.xsd_check:\n            self._final_checks(intelligent_choice=intelligent_choice)\n\n"
             "    def find_child(self, name: Union['XMLElement', str], ordered: bool = False) -> 'XMLElement':\n", XE)), None, 'the validation step of to_string extracted into a private helper'),
+    C('silent-extract-helper-duplication', 'silent', ['C01', 'C06', 'C10', 'C11', 'C19', 'C16'], multi(
+        sub("            duplicated_parent = same_name_leaves[-1]._duplicate_parent_in_path()\n            if duplicated_parent:\n"
+            "                selected_same_name_leaves = [leaf for leaf in duplicated_parent.iterate_leaves() if\n"
+            "                                             leaf.content.name == xml_element.name and not\n"
+            "                                             leaf.max_is_reached]\n"
+            "                if self._parent_xml_element and self.up:\n                    self._parent_xml_element._child_container_tree = self.up\n\n"
+            "            else:\n                raise XMLChildContainerChoiceHasAnotherChosenChild\n",
+            "            selected_same_name_leaves = self._free_leaves_of_new_duplicate(same_name_leaves, xml_element.name)\n"
+            "            if selected_same_name_leaves is None:\n                raise XMLChildContainerChoiceHasAnotherChosenChild\n", CC),
+        sub("                duplicated_parent = selected_same_name_leaves[-1]._duplicate_parent_in_path()\n                if duplicated_parent:\n"
+            "                    selected_same_name_leaves_max_not_reached = [leaf for leaf in duplicated_parent.iterate_leaves() if\n"
+            "                                                                 leaf.content.name ==\n"
+            "                                                                 xml_element.name and not leaf.max_is_reached]\n"
+            "                    if self._parent_xml_element and self.up:\n                        self._parent_xml_element._child_container_tree = self.up\n"
+            "                else:\n                    raise XMLChildContainerMaxOccursError()\n",
+            "                selected_same_name_leaves_max_not_reached = self._free_leaves_of_new_duplicate(selected_same_name_leaves, xml_element.name)\n"
+            "                if selected_same_name_leaves_max_not_reached is None:\n                    raise XMLChildContainerMaxOccursError()\n", CC),
+        sub("    def _update_requirements_in_path(self):\n",
+            "    def _free_leaves_of_new_duplicate(self, candidates, name):\n"
+            "        duplicated_parent = candidates[-1]._duplicate_parent_in_path()\n        if duplicated_parent:\n"
+            "            if self._parent_xml_element and self.up:\n                self._parent_xml_element._child_container_tree = self.up\n"
+            "            return [leaf for leaf in duplicated_parent.iterate_leaves() if leaf.content.name == name and not leaf.max_is_reached]\n"
+            "        return None\n\n    def _update_requirements_in_path(self):\n", CC)), None,
+      'the two duplicate-the-repeatable-parent blocks of add_element extracted into one method (behaviour preserving)'),
+    C('silent-correct-memo-ordered-children', 'silent', ['C01', 'C06', 'C11', 'C16', 'C10', 'C13', 'C14'], multi(
+        sub("        self._unordered_children = []\n        self.value_ = value_", "        self._unordered_children = []\n        self._ordered_children = None\n        self.value_ = value_", XE),
+        sub("            return [xml_element for leaf in self._child_container_tree.iterate_leaves() for xml_element in\n"
+            "                    leaf.content.xml_elements if\n                    leaf.content.xml_elements]",
+            "            if self._ordered_children is None:\n"
+            "                self._ordered_children = [xml_element for leaf in self._child_container_tree.iterate_leaves() for xml_element in\n"
+            "                                          leaf.content.xml_elements]\n            return list(self._ordered_children)", XE),
+        sub("        self._unordered_children.append(child)\n        child._parent = self\n        return child",
+            "        self._unordered_children.append(child)\n        child._parent = self\n        self._ordered_children = None\n        return child", XE),
+        sub("        child._parent = None\n        del child", "        child._parent = None\n        self._ordered_children = None\n        del child", XE),
+        sub("        new._parent = self\n        old_child._parent = None\n        return new",
+            "        new._parent = self\n        old_child._parent = None\n        self._ordered_children = None\n        return new", XE),
+        sub("                required_children = self._child_container_tree.get_required_element_names(\n                    intelligent_choice=intelligent_choice)\n",
+            "                required_children = self._child_container_tree.get_required_element_names(\n                    intelligent_choice=intelligent_choice)\n"
+            "                self._ordered_children = None\n", XE)), None,
+      'a coherent memo of the ordered view: reset after every write of the state it is computed from (twin of seed R2-C06b, which resets before the write)'),
+    C('silent-get-children-delegates', 'silent', ['C01', 'C06', 'C16'],
+      sub("            return [xml_element for leaf in self._child_container_tree.iterate_leaves() for xml_element in\n"
+          "                    leaf.content.xml_elements if\n                    leaf.content.xml_elements]",
+          "            return self._child_container_tree.get_attached_elements()", XE), None,
+      'get_children delegates to the container method that concatenates the leaf lists in leaf order'),
+    C('silent-extract-helper-replace-leaf', 'silent', ['C01', 'C06', 'C10', 'C11', 'C13', 'C19'], multi(
+        sub("            parent_xsd_element = old_child.parent_xsd_element\n            new.parent_xsd_element = parent_xsd_element\n"
+            "            parent_xsd_element._xml_elements = [new if el == old_child else el for el in\n"
+            "                                                parent_xsd_element.xml_elements]\n",
+            "            old_child.parent_xsd_element.replace_xml_element(old_child, new)\n", XE),
+        sub("    @property\n    def xml_elements(self):",
+            "    def replace_xml_element(self, old, new):\n        new.parent_xsd_element = self\n"
+            "        self._xml_elements = [new if el == old else el for el in self._xml_elements]\n\n    @property\n    def xml_elements(self):", EL)), None,
+      'the leaf swap of replace_child moved into a new public method of the leaf class (behaviour preserving; seeds R2-C10b / R2-C11a are the broken variants)'),
     C('silent-reformat-all-modules', 'silent', ALL_PROPS, reformat_all_modules(), None, 'whole-program re-formatting'),
     C('silent-rename-all-locals-container', 'silent', ALL_PROPS, rename_all_locals(CC), None, 'every local of xmlchildcontainer.py renamed'),
     C('silent-rename-all-locals-parser', 'silent', ['C08', 'C09', 'C17', 'C19'], rename_all_locals(PA), None, 'every local of parser.py renamed'),
@@ -360,6 +414,18 @@ SEED_EXPECT = {
     'C15a': ['C15'], 'C15b': ['C10', 'C15'], 'C16a': ['C04', 'C05', 'C16'], 'C16b': ['C16'], 'C17a': ['C17'], 'C17b': ['C09', 'C17'], 'C18a': ['C18'],
     'C18b': ['C18'], 'C19a': ['C15', 'C19'], 'C19b': ['C19'], 'C20a': ['C13', 'C20'], 'C20b': ['C13', 'C20'],
 }
+# round 2 (40 seeds, 33 caught): expectations as observed on the pinned tree; the misses are listed in DESIGN.md 11.6
+SEED_EXPECT.update({
+    'R2-C01a': ['C01'], 'R2-C01b': ['C01', 'C06', 'C11'], 'R2-C02a': ['C01', 'C06', 'C10', 'C11', 'C19'], 'R2-C03a': ['C03', 'C13', 'C20'],
+    'R2-C03b': ['C13', 'C20'], 'R2-C04a': ['C13', 'C20'], 'R2-C04b': ['C05', 'C13', 'C20'], 'R2-C05a': ['C05', 'C13', 'C20'],
+    'R2-C05b': ['C04', 'C05'], 'R2-C06b': ['C01', 'C06', 'C10', 'C11'], 'R2-C08a': ['C05', 'C13'], 'R2-C09a': ['C04', 'C05', 'C16'],
+    'R2-C10a': ['C06', 'C10', 'C11'], 'R2-C10b': ['C10'], 'R2-C11a': ['C06', 'C10', 'C11'], 'R2-C11b': ['C01', 'C06', 'C11', 'C16', 'C19'],
+    'R2-C12b': ['C10'], 'R2-C13a': ['C05', 'C13', 'C20'], 'R2-C13b': ['C13', 'C20'], 'R2-C14a': ['C04', 'C10', 'C13', 'C20'],
+    'R2-C14b': ['C01', 'C06', 'C11', 'C16'], 'R2-C15a': ['C01', 'C06', 'C11', 'C15', 'C18'], 'R2-C15b': ['C10', 'C13', 'C20'], 'R2-C16a': ['C04', 'C05'],
+    'R2-C16b': ['C01', 'C06', 'C11'], 'R2-C17a': ['C01', 'C16', 'C17', 'C18'], 'R2-C17b': ['C17'], 'R2-C18a': ['C18'],
+    'R2-C18b': ['C06', 'C10', 'C11', 'C18', 'C19'], 'R2-C19a': ['C19'], 'R2-C19b': ['C19'], 'R2-C20a': ['C05', 'C13', 'C20'],
+    'R2-C20b': ['C13', 'C20'],
+})
 for _sid, _props in SEED_EXPECT.items():
     CONTROLS.append(C(f"fire-seed-{_sid}", 'fire', _props, apply_seed(_sid), None, 'confirmed seeded change'))
 
